@@ -770,7 +770,20 @@ func (x *Exec) evalBinary(env *Env, e *EBinary) SV {
 	case "&&":
 		return SV{T: And(x.evalBool(env, e.X), x.evalBool(env, e.Y))}
 	case "||":
-		return SV{T: Or(x.evalBool(env, e.X), x.evalBool(env, e.Y))}
+		// a disjunct that names a local which does not exist on this path is left unconstrained (see "==>")
+		part := func(ex Expr) (t *Term) {
+			defer func() {
+				if r := recover(); r != nil {
+					if u, ok := r.(unsupported); ok && (strings.Contains(u.msg, "is not allocated at this point") || strings.Contains(u.msg, "no live local")) {
+						t = x.freshVar("undef", SBool)
+						return
+					}
+					panic(r)
+				}
+			}()
+			return x.evalBool(env, ex)
+		}
+		return SV{T: Or(part(e.X), part(e.Y))}
 	case "==>":
 		ante := x.evalBool(env, e.X)
 		// a consequent that names a local which does not exist on this path (e.g. declared in the other branch) is left
